@@ -15,6 +15,7 @@ import (
 	"pgregory.net/rapid"
 
 	"verifharness/lib/gen"
+	"verifharness/lib/known"
 	"verifharness/lib/resp"
 	"verifharness/lib/simkv"
 	"verifharness/lib/stats"
@@ -51,6 +52,26 @@ func populate(s *simkv.Sim, full string, tag string) {
 	s.Do("rpush", k, "l1-"+tag, "l2-"+tag)
 	s.Do("sadd", k, "x", "", "s-"+tag)
 	s.Do("zadd", k, "1", "x", "2", "", "3", "z-"+tag)
+	// a bitmap (its own type since setbitv2: 1 KiB segments keyed by their byte index) with three segments
+	s.Do("setbitv2", k, fmt.Sprint(7+len(tag)), "1")
+	s.Do("setbitv2", k, "9000", "1")
+	s.Do("setbitv2", k, "1048577", "1")
+	s.Do("json.set", k, ".", `{"tag":"`+tag+`"}`)
+}
+
+var bitOffsets = []string{"0", "1", "7", "8", "8191", "8192", "8193", "9000", "16383", "16384", "1048577", "4294967294"}
+
+// bitmapOp draws a command of the bitmap type on key a.
+func bitmapOp(t *rapid.T, a string) []string {
+	switch rapid.IntRange(0, 6).Draw(t, "bitop") {
+	case 0:
+		return []string{"bitclear", a}
+	case 1:
+		return []string{"getbit", a, rapid.SampledFrom(bitOffsets).Draw(t, "bitoff")}
+	case 2:
+		return []string{"bitcount", a}
+	}
+	return []string{"setbitv2", a, rapid.SampledFrom(bitOffsets).Draw(t, "bitoff"), rapid.SampledFrom([]string{"1", "1", "0"}).Draw(t, "bitval")}
 }
 
 func dumpKey(s *simkv.Sim, full string, skipFam byte) []string {
@@ -76,6 +97,11 @@ func dumpKey(s *simkv.Sim, full string, skipFam byte) []string {
 	add('h', "hscan", k, "", "count", "100")
 	add('s', "sscan", k, "", "count", "100")
 	add('z', "zscan", k, "", "count", "100")
+	add('b', "bitcount", k)
+	add('b', "getbit", k, "9000")
+	add('b', "getbit", k, "1048577")
+	add('b', "getbit", k, "8")
+	add('j', "json.get", k)
 	return out
 }
 
@@ -101,6 +127,8 @@ func odd(a, b string) bool {
 
 func famOf(name string) byte {
 	switch name {
+	case "setbitv2", "getbit", "bitcount", "bitclear":
+		return 'b'
 	case "set", "setex", "setnx", "strlen", "get", "getset", "incr", "incrby", "append", "setrange", "del", "exists", "mget", "expire", "persist", "ttl", "plset":
 		return 'k'
 	}
@@ -152,7 +180,7 @@ func runFrame(t *rapid.T, engine string) {
 	var skip byte
 	if mode == "other_type" {
 		a = b
-		skip = rapid.SampledFrom([]byte{'k', 'h', 'l', 's', 'z'}).Draw(t, "family")
+		skip = rapid.SampledFrom([]byte{'k', 'h', 'l', 's', 'z', 'b'}).Draw(t, "family")
 	}
 	snap := map[string][]string{}
 	for _, w := range watched {
@@ -182,7 +210,7 @@ func runFrame(t *rapid.T, engine string) {
 			}
 			// everything of that table must be gone
 			for _, l := range dumpKey(sim, w, 0) {
-				if !(strings.HasSuffix(l, "-> nil") || strings.HasSuffix(l, "-> :0") || strings.HasSuffix(l, "-> []") || strings.HasSuffix(l, `-> ["" []]`)) {
+				if !(strings.HasSuffix(l, "-> nil") || strings.HasSuffix(l, "-> :0") || strings.HasSuffix(l, "-> []") || strings.HasSuffix(l, `-> ["" []]`) || strings.HasSuffix(l, `"json.get" `+fmt.Sprintf("%q", ns+":"+w)+` -> [""]`)) {
 					t.Fatalf("after deleting table %q, key %q of that table still shows data: %s", ta, w, l)
 				}
 			}
@@ -280,11 +308,15 @@ func runFrame(t *rapid.T, engine string) {
 		n := rapid.IntRange(1, 20).Draw(t, "nops")
 		for i := 0; i < n; i++ {
 			var c []string
-			for try := 0; ; try++ {
+			if skip == 'b' || (mode != "other_type" && rapid.IntRange(0, 5).Draw(t, "bitmap") == 0) {
+				c = bitmapOp(t, a)
+			}
+			for try := 0; c == nil; try++ {
 				c = g.Command(t, pool)
 				if mode != "other_type" || famOf(c[0]) == skip || try > 30 {
 					break
 				}
+				c = nil
 			}
 			if mode == "other_type" && famOf(c[0]) != skip {
 				continue
@@ -588,3 +620,47 @@ func TestKeyEncoders(t *testing.T) {
 }
 
 var _ = sort.Strings
+
+// TestKnownTableDeleteLeavesBitmapAndJSON: the whole-table delete has to remove every type.
+func TestKnownTableDeleteLeavesBitmapAndJSON(t *testing.T) {
+	known.Probe(t, "C12-table-delete-leaves-bitmap-and-json", func() (bool, string) {
+		for _, engine := range []string{"pebble", "mem"} {
+			s, err := simkv.New(simkv.Options{Engine: engine})
+			if err != nil {
+				return false, "HARNESS: " + err.Error()
+			}
+			k, other := ns+":t:k", ns+":tt:k"
+			for _, x := range []string{k, other} {
+				s.Do("setbitv2", x, "9000", "1")
+				s.Do("json.set", x, ".", `{"a":1}`)
+				s.Do("hset", x, "f", "v")
+			}
+			if err := s.Parts[0].KV.DeleteRange(node.DeleteTableRange{Table: "t", DeleteAll: true}); err != nil {
+				s.Close()
+				return false, "HARNESS: " + err.Error()
+			}
+			var left []string
+			if r := s.Do("bitcount", k).String(); r != ":0" {
+				left = append(left, "bitcount -> "+r)
+			}
+			if r := s.Do("json.get", k).String(); r != `[""]` {
+				left = append(left, "json.get -> "+r)
+			}
+			if r := s.Do("hlen", k).String(); r != ":0" {
+				left = append(left, "hlen -> "+r)
+			}
+			// and nothing of the neighbouring table "tt" may go
+			if r := s.Do("bitcount", other).String(); r != ":1" {
+				left = append(left, "table tt: bitcount -> "+r)
+			}
+			if r := s.Do("json.get", other).String(); r != `["{\"a\":1}"]` {
+				left = append(left, "table tt: json.get -> "+r)
+			}
+			s.Close()
+			if len(left) > 0 {
+				return true, fmt.Sprintf("%s: after deleting table t, key t:k: %s", engine, strings.Join(left, "; "))
+			}
+		}
+		return false, ""
+	})
+}
